@@ -44,5 +44,34 @@ def main():
     print(f'| all | {tot_t} | | | {tot_o} | {tot_e} | | |')
 
 
+def patch_design():
+    """Refresh the 'thms' column of DESIGN.md section I.2 and the size line of section I.1
+    from the Coq sources (member theorems of coq/Properties/Cxx.v)."""
+    import subprocess
+    design = VERIF / 'DESIGN.md'
+    text = design.read_text()
+    total = 0
+    for i in range(1, 19):
+        pid = f'C{i:02d}'
+        src = (VERIF / 'coq' / 'Properties' / f'{pid}.v').read_text()
+        n = len(re.findall(r'^(?:Theorem|Lemma|Corollary) ', src, flags=re.M))
+        total += n
+        text, k = re.subn(rf'^\| {pid} \| \d+ \|', f'| {pid} | {n} |', text, count=1, flags=re.M)
+        assert k == 1, pid
+    coq = sum(len(f.read_text().splitlines()) for f in (VERIF / 'coq').rglob('*.v')
+              if 'generated' not in f.parts)
+    py = sum(len(f.read_text().splitlines()) for f in (VERIF / 'harness').rglob('*.py'))
+    text, k = re.subn(r'Size: ~\d+ k lines of Coq, ~\d+ k lines of Python harness, \d+ property\n  theorems\.',
+                      f'Size: ~{coq // 1000} k lines of Coq, ~{py // 1000} k lines of Python harness, {total} property\n  theorems.',
+                      text, count=1)
+    assert k == 1, 'size line'
+    design.write_text(text)
+    print(f'DESIGN.md: {total} theorems, {coq} lines of Coq, {py} lines of Python')
+
+
 if __name__ == '__main__':
-    main()
+    import sys
+    if '--design' in sys.argv:
+        patch_design()
+    else:
+        main()
